@@ -49,6 +49,17 @@ def simple_lets(body):
             for s in n.get("stmts", []):
                 if s["k"] == "let" and s["pat"].get("k") == "bind" and "init" in s:
                     lets[s["pat"]["var"]] = s["init"]
+                elif s["k"] == "let" and "init" in s:
+                    # `let (a, b, _) = e;` : a is e.0, b is e.1
+                    p_ = s["pat"]
+                    while p_["k"] in ("ref", "deref"):
+                        p_ = p_["p"]
+                    if p_["k"] == "tuple":
+                        for i_, q in enumerate(p_["ps"]):
+                            while q["k"] in ("ref", "deref"):
+                                q = q["p"]
+                            if q["k"] == "bind":
+                                lets[q["var"]] = {"k": "field", "name": str(i_), "base": s["init"]}
     return lets
 
 
@@ -309,20 +320,31 @@ def run(ctx):
         rt.violate("record_during_with", "missing")
     else:
         effs = []
-        for n, guards in inv.walk_guarded(c, b["value"]):
-            if n["k"] in ("mcall", "call") and n.get("callee"):
-                p = strip_generics(n["callee"]["path"])
-                nm = p.rsplit("::", 1)[-1]
-                if p.startswith("alloc::vec::Vec::") and nm in ("push", "pop", "last_mut"):
-                    effs.append(nm)
-                elif nm in ("call_once", "call_mut"):
-                    effs.append("f")
-                elif p == strip_generics(T + "record"):
-                    inv._LETS = inv.collect_lets(b["value"])
-                    effs.append("record under " + " && ".join(guards))
-            if n["k"] == "assign":
-                inv._LETS = {}
-                effs.append("set " + inv.short_descr(c, n["l"]) + " under " + " && ".join(guards))
+        TP = strip_generics(T)
+
+        def collect(body, depth):
+            for n, guards in inv.walk_guarded(c, body["value"]):
+                if n["k"] in ("mcall", "call") and n.get("callee"):
+                    p = strip_generics(n["callee"]["path"])
+                    nm = p.rsplit("::", 1)[-1]
+                    if p.startswith("alloc::vec::Vec::") and nm in ("push", "pop", "last_mut"):
+                        effs.append(nm)
+                    elif nm in ("call_once", "call_mut"):
+                        effs.append("f")
+                    elif p == strip_generics(T + "record"):
+                        inv._LETS = inv.collect_lets(body["value"])
+                        effs.append("record under " + " && ".join(guards))
+                    elif p.startswith(TP) and depth < 2 and nm not in ("prepare", "get_entry"):
+                        # a private helper of the tracker (e.g. the parent-marking step extracted into a method): its effects happen here
+                        hb = next((c.body(f) for f in c.bodies if strip_generics(f) == p), None)
+                        if hb is not None:
+                            saved = inv._LETS
+                            collect(hb, depth + 1)
+                            inv._LETS = saved
+                if n["k"] == "assign":
+                    inv._LETS = {}
+                    effs.append("set " + inv.short_descr(c, n["l"]) + " under " + " && ".join(guards))
+        collect(b, 0)
         shape = [e.split(" under ")[0] for e in effs]
         rec_guard = [e for e in effs if e.startswith("record under")]
         first_set = [i for i, e in enumerate(effs) if e.startswith("set ") and "last_mut()~Some" in e]
